@@ -74,6 +74,10 @@ def run(tier, seed, replay=None):
         for a in bs[:6]:
             for p in range(2, 33):
                 cases.append(("cancel %s/%d" % (ip_s(a), p), [], "cancel", a, p))
+        # hand-built IPNets whose IP field keeps host bits (ipGenerator must mask itself)
+        for a in bs:
+            for p in range(20, 33):
+                cases.append(("rawgen %s %d" % (ip_s(a), p), ["rawgen %d %d" % (a, p)], "rawgen", a, p))
         if thorough:
             for a in bs[:1]:
                 for p in (8,):
@@ -100,7 +104,7 @@ def run(tier, seed, replay=None):
         if kind != "sz" and p <= 30:
             nontriv.add((kind, a, p))
         expect = None
-        if kind in ("sz", "gen", "sum"):
+        if kind in ("sz", "gen", "sum", "rawgen"):
             expect = o[0].strip()
         elif kind == "head":
             vals = [x.strip() for x in o if x.strip() != "none"]
@@ -117,6 +121,12 @@ def run(tier, seed, replay=None):
         if kind == "cancel":
             res.violation("cancel-blocks:/%d" % p if p >= 31 else "cancel-blocks:loop",
                           "ipGenerator for %s/%d did not return within 3s after cancellation with no consumer" % (ip_s(a), p), replay_d)
+        elif kind == "rawgen":
+            got = [int(x) for x in g.split()[1:]] if not g.startswith("error") else None
+            if p <= 30 and (got is None or not spec_ok(a, p, got)):
+                res.violation("enum-wrong:raw-ipnet", "ipGenerator on a hand-built IPNet{%s, /%d} (host bits set) does not enumerate exactly the hosts of that network: got %s" % (ip_s(a), p, g[:300]), replay_d)
+            else:
+                res.violation("raw-ipnet-differs", "ipGenerator on a hand-built IPNet{%s, /%d}: observed %s, model %s" % (ip_s(a), p, g[:200], expect[:200]), replay_d, p <= 30)
         elif kind == "gen":
             got = [int(x) for x in g.split()[1:]] if not g.startswith("error") else None
             if got is None or not spec_ok(a, p, got) or int(g.split()[0]) != len(got):
